@@ -104,13 +104,16 @@ pub fn probe_r7() -> SimCampaign {
     c.gen.max_clients = 3;
     c.gen.w_subscribe = 20;
     c.gen.w_burst = 0;
-    c.gen.filters = ["a/#", "a"].iter().map(|s| s.to_string()).collect();
+    // one filter only, so that a forward with the stale QoS cannot be taken for a copy owed
+    // to another subscription (keeps the probe's failure signature specific)
+    c.gen.filters = ["a/#"].iter().map(|s| s.to_string()).collect();
+    c.gen.w_unsubscribe = 0;
     c.flags.avoid.resub_qos = false;
     c.flags.strict_resub = true;
     c.quick = 300;
     c.thorough = 3000;
     c.nontrivial = |s, _| if s.forwards > 0 { Some("resub".into()) } else { None };
-    c.probes = vec!["delivery:wrong_qos", "delivery:outside_subscription_lifetime", "delivery:duplicate_or_out_of_order"];
+    c.probes = vec!["delivery:wrong_qos"];
     c
 }
 
